@@ -28,6 +28,11 @@ RULES = {
     "C01-P2": "the 1-skeleton adjacency is filled symmetrically",
     "C01-K1": "a dictionary written under keyify(...) keys is only read under keyify(...) keys",
     "C01-W1": "the counter-clockwise walk is the inverse of the clockwise walk and steps the sort index with the opposite sign",
+    "C01-L5": "the cold path of a lazily cached accessor (`if self.f is None:`) only builds the cache; it never answers by itself "
+              "(an answer computed differently when the cache is cold makes the result depend on the order of the queries)",
+    "C01-D1": "opposite_face(u, v, F, return_inds=True) returns (face, local index of u, local index of v): the names unpacked from "
+              "direct_face(a, b, True) = (face, index of a, index of b) keep their roles",
+    "C01-D2": "derived accessors are element-wise maps of the rotationally sorted primary tables (same order, same length)",
 }
 
 
@@ -41,12 +46,15 @@ def run(ctx):
     p2_symmetric_adjacency(ctx)
     common.keyify_agreement(ctx, "C01-K1", [(LIN, "PolyLine._Connectivity"), (SURF, CONN)], min_dicts=2)
     w1_rotational_sort(ctx)
+    d1_opposite_face(ctx)
+    d2_derived_accessors(ctx)
 
 
 # ----------------------------------------------------------------------- R-LAZY
 def lazy_rules(ctx, classes, pid, min_entries, min_guards):
     repo = ctx.repo
     n_entries = n_guards = 0
+    seen_l5 = set()
     for modname, qual in classes:
         lc = LazyClass(repo, modname, qual)
         viol = lc.check_uses()
@@ -83,6 +91,26 @@ def lazy_rules(ctx, classes, pid, min_entries, min_guards):
                       f"`if self.{f} is None` raises AttributeError on a fresh {qual}: the field is only assigned by "
                       f"{', '.join(sorted(n for n, s in lc.writers().items() if f in s)) or 'clear()'}",
                       note=f"{qual}.{f} initialised")
+        # L5: cold path never answers by itself
+        for m, fn, c in lc.all_defs:
+            if fn.name == "__init__":
+                continue
+            for st in au.stmts(fn.body):
+                if isinstance(st, ast.If) and isinstance(st.test, ast.Compare) and len(st.test.ops) == 1 \
+                        and isinstance(st.test.ops[0], ast.Is) and au.is_self_attr(st.test.left) \
+                        and st.test.left.attr in lc.lazy and isinstance(st.test.comparators[0], ast.Constant) \
+                        and st.test.comparators[0].value is None:
+                    rets = [r for r in au.stmts(st.body) if isinstance(r, ast.Return)]
+                    site = ctx.site(m.name, fn, st)
+                    key = (m.name, getattr(fn, "_qualname", fn.name), st.test.left.attr)
+                    if key in seen_l5:
+                        continue
+                    seen_l5.add(key)
+                    ctx.check(not rets, f"{pid}-L5", site,
+                              f"{fn.name}: the cold path (`self.{st.test.left.attr} is None`) returns an answer of its own instead of building the cache",
+                              "the same query is answered by two different computations depending on whether another query already "
+                              "built the cache: answers are not independent of the order in which queries are issued",
+                              note=f"{fn.name}: cold path only builds")
         # L4
         written = set().union(*lc.writers().values()) if lc.writers() else set()
         written &= lc.guard_fields
@@ -469,3 +497,153 @@ def w1_rotational_sort(ctx):
               f"sort index steps {s1} and {s2} in the two walks (must be opposite)", "the two walks must extend one linear order")
     ctx.check(st1 is not None and st1 == st2, "C01-W1", site,
               f"walks start from {st1} and {st2}", "both walks start from the same corner")
+
+
+# ----------------------------------------------------------------------- C01-D1
+def d1_opposite_face(ctx):
+    fn = ctx.repo.func(SURF, CONN + ".opposite_face")
+    site = ctx.site(SURF, fn)
+    ps = au.params(fn, skip_self=True)
+    if len(ps) < 3:
+        ctx.fail("C01-D1", site, "opposite_face no longer takes (u, v, F)", "")
+        return
+    u, v, F = ps[:3]
+    # roles of names unpacked from direct_face(a, b, True)
+    role = {}
+    faces = {}
+    for st in au.stmts(fn.body):
+        if isinstance(st, ast.Assign) and isinstance(st.targets[0], ast.Tuple) and len(st.targets[0].elts) == 3 \
+                and isinstance(st.value, ast.Call) and au.call_tail(st.value) == "direct_face" and len(st.value.args) >= 2 \
+                and all(isinstance(a, ast.Name) for a in st.value.args[:2]):
+            a, b = st.value.args[0].id, st.value.args[1].id
+            names = [x.id if isinstance(x, ast.Name) else None for x in st.targets[0].elts]
+            role[names[0]] = ("face", (a, b))
+            role[names[1]] = ("idx", a, (a, b))
+            role[names[2]] = ("idx", b, (a, b))
+    n = 0
+    for st in au.stmts(fn.body):
+        if isinstance(st, ast.Return) and isinstance(st.value, ast.Tuple) and len(st.value.elts) == 3 \
+                and all(isinstance(x, ast.Name) for x in st.value.elts):
+            f_, iu, iv = (x.id for x in st.value.elts)
+            if f_ not in role:
+                continue
+            n += 1
+            side = role[f_][1]
+            ok = role.get(iu) == ("idx", u, side) and role.get(iv) == ("idx", v, side)
+            # the returned face must be the one on the *other* side of the one compared with F in the guard
+            gs = [t for t, pol in au.guards(st, stop=fn) if pol]
+            other_side = True
+            for t in gs:
+                if isinstance(t, ast.Compare) and isinstance(t.ops[0], ast.Eq):
+                    names = {au.src(t.left), au.src(t.comparators[0])}
+                    if F in names:
+                        cmpf = (names - {F}).pop() if len(names) == 2 else None
+                        if cmpf in role and role[cmpf][0] == "face":
+                            other_side = role[cmpf][1] == (side[1], side[0])
+            ctx.check(ok and other_side, "C01-D1", ctx.site(SURF, fn, st),
+                      f"opposite_face returns ({f_}, {iu}, {iv}): not (opposite face, index of {u} in it, index of {v} in it)",
+                      f"direct_face(a, b, True) returns (face, local index of a, local index of b); here the roles are "
+                      f"{ {k: role.get(k) for k in (f_, iu, iv)} }", note="indices keep the roles of u and v")
+    ctx.check(n >= 2, "C01-D1", site, "opposite_face(return_inds=True) no longer returns the two (face, i_u, i_v) triples", "")
+
+
+# ----------------------------------------------------------------------- C01-D2
+def _single_return_comp(fn):
+    rets = [st for st in au.stmts(fn.body) if isinstance(st, ast.Return) and st.value is not None]
+    if len(rets) != 1:
+        return None
+    return rets[0].value
+
+
+def d2_derived_accessors(ctx):
+    repo = ctx.repo
+    # (module, qualname, source accessor whose order is inherited, element map as a source pattern with {x} and params)
+    table = [
+        (LIN, "PolyLine._Connectivity.vertex_to_edges", "vertex_to_vertices", lambda x, p: {f"self.edge_id({p[0]}, {x})", f"self.edge_id({x}, {p[0]})"}),
+        (SURF, CONN + ".vertex_to_faces", "vertex_to_corners", lambda x, p: {f"self.corner_to_face({x})"}),
+    ]
+    for modname, q, source, emap in table:
+        fn = repo.func(modname, q)
+        site = ctx.site(modname, fn)
+        ps = au.params(fn, skip_self=True)
+        v = _single_return_comp(fn)
+        ok = False
+        if isinstance(v, ast.ListComp) and len(v.generators) == 1 and not v.generators[0].ifs \
+                and isinstance(v.generators[0].target, ast.Name):
+            it = v.generators[0].iter
+            x = v.generators[0].target.id
+            ok = isinstance(it, ast.Call) and au.is_self_attr(it.func, source) and [au.src(a) for a in it.args] == ps[:1] \
+                and au.src(v.elt) in emap(x, ps)
+        if not ok:
+            # accepted alternative: a cache that is itself sorted with the rotation key in _sort_vertex_neighborhoods
+            reads = {n.attr for n in au.walk(fn) if au.is_self_attr(n) and n.attr.startswith("_adj")}
+            sorter = repo.func(SURF, CONN + "._sort_vertex_neighborhoods")
+            sorted_fields = {c.func.value.value.attr for c in au.calls(sorter) if au.call_tail(c) == "sort"
+                             and isinstance(c.func.value, ast.Subscript) and au.is_self_attr(c.func.value.value)}
+            ok = bool(reads) and reads <= sorted_fields
+        ctx.check(ok, "C01-D2", site,
+                  f"{fn.name} is not the element-wise image of {source}() (nor a table sorted by the rotation key)",
+                  f"{fn.name}(V)[k] must correspond to {source}(V)[k]: the rotational order around the vertex and the alignment of "
+                  f"the two lists are part of the contract", note=f"{fn.name} = map over {source}")
+    # face_to_edges: [edge_id(lF[i], lF[(i+1)%n]) for i in range(n)], n = len(face)
+    fn = repo.func(SURF, CONN + ".face_to_edges")
+    site = ctx.site(SURF, fn)
+    b = sym.Bindings(fn)
+    v = _single_return_comp(fn)
+    ok = False
+    if isinstance(v, ast.ListComp) and len(v.generators) == 1 and not v.generators[0].ifs and isinstance(v.generators[0].target, ast.Name):
+        i = v.generators[0].target.id
+        it = v.generators[0].iter
+        if isinstance(it, ast.Call) and au.call_tail(it) == "range" and len(it.args) == 1 and isinstance(v.elt, ast.Call) \
+                and au.is_self_attr(v.elt.func, "edge_id") and len(v.elt.args) == 2:
+            nsrc = au.src(it.args[0])
+            rows = set()
+            offs = []
+            for a in v.elt.args:
+                if isinstance(a, ast.Subscript):
+                    rows.add(au.src(b.resolve(a.value, at=v)))
+                    offs.append(sym.mod_offset(a.slice, i, nsrc))
+                else:
+                    offs.append(None)
+            F = au.params(fn, skip_self=True)[0]
+            n_ok = au.src(b.resolve(it.args[0], at=v)) in (f"len(self.mesh.faces[{F}])",)
+            ok = n_ok and rows == {f"self.mesh.faces[{F}]"} and sorted(o for o in offs if o is not None) == [0, 1] and None not in offs
+    ctx.check(ok, "C01-D2", site, "face_to_edges is not [edge_id(f[i], f[(i+1) % n]) for i in range(n)] over the face's own row",
+              "the k-th edge of a face is the side leaving its k-th vertex", note="face_to_edges = sides in face order")
+    # face_to_corners: [first + i for i in range(len(face))]
+    fn = repo.func(SURF, CONN + ".face_to_corners")
+    site = ctx.site(SURF, fn)
+    v = _single_return_comp(fn)
+    ok = False
+    F = au.params(fn, skip_self=True)[0]
+    if isinstance(v, ast.ListComp) and len(v.generators) == 1 and not v.generators[0].ifs and isinstance(v.generators[0].target, ast.Name):
+        i = v.generators[0].target.id
+        it = v.generators[0].iter
+        p = sym.to_poly(v.elt, atom_of=lambda e: "FIRST" if au.src(e) in (f"self._adjF2Cn[{F}]", f"self.face_to_first_corner({F})") else None)
+        ok = p == sym.Poly.atom("FIRST") + sym.Poly.atom(i) and au.src(it) == f"range(len(self.mesh.faces[{F}]))"
+    ctx.check(ok, "C01-D2", site, "face_to_corners is not [first corner + i for i in range(len(face))]",
+              "corners of a face are stored consecutively, in the order of its vertices", note="face_to_corners consecutive")
+    # face_to_faces: corner_to_face(opposite_corner(C)) for C in face_to_corners(F), None dropped
+    fn = repo.func(SURF, CONN + ".face_to_faces")
+    site = ctx.site(SURF, fn)
+    b = sym.Bindings(fn)
+    v = _single_return_comp(fn)
+    ok = False
+    F = au.params(fn, skip_self=True)[0]
+    if isinstance(v, ast.ListComp) and len(v.generators) == 1 and isinstance(v.generators[0].target, ast.Name):
+        x = v.generators[0].target.id
+        src_it = b.resolve(v.generators[0].iter, at=v)
+        filt = [au.src(t) for t in v.generators[0].ifs]
+        if au.src(v.elt) == f"self.corner_to_face({x})" and filt == [f"{x} is not None"] and isinstance(src_it, ast.ListComp) \
+                and len(src_it.generators) == 1 and not src_it.generators[0].ifs:
+            y = src_it.generators[0].target.id
+            ok = au.src(src_it.elt) == f"self.opposite_corner({y})" and au.src(src_it.generators[0].iter) == f"self.face_to_corners({F})"
+    ctx.check(ok, "C01-D2", site, "face_to_faces is not [face of the opposite corner, for each corner of the face, border sides dropped]",
+              "faces around a face are the faces across each of its sides, in side order", note="face_to_faces via opposite corners")
+    # edge_to_faces: (direct_face(u,v), direct_face(v,u))
+    fn = repo.func(SURF, CONN + ".edge_to_faces")
+    ps = au.params(fn, skip_self=True)
+    v = _single_return_comp(fn)
+    ok = isinstance(v, ast.Tuple) and [au.src(e) for e in v.elts] == [f"self.direct_face({ps[0]}, {ps[1]})", f"self.direct_face({ps[1]}, {ps[0]})"]
+    ctx.check(ok, "C01-D2", ctx.site(SURF, fn), "edge_to_faces is not (direct_face(u,v), direct_face(v,u))",
+              "the face on either side of an edge", note="edge_to_faces = both sides")
